@@ -9,7 +9,7 @@ From Flocq.IEEE754 Require Import BinarySingleNaN Binary Bits.
 From TT Require Import Base.Outcome Base.Str Base.F64 Base.GoParse Base.Verdict
      Trackaddict.Units Trackaddict.Columns.
 Import ListNotations.
-Open Scope Z_scope.
+Local Open Scope Z_scope.
 
 (* impl observation: class 0 = value stored (bits), 1 = decoder error, 2 = panic, 3 = timeout,
    4 = field absent (nil pointer) *)
